@@ -85,6 +85,41 @@ Qed.
 Lemma find_total h n : match find h n with Found _ | NotFound => True | _ => False end.
 Proof. rewrite find_correct. destruct (first_occ h n); exact I. Qed.
 
+Lemma interp_segs_only_segvar e : forall segs p, interp_segs e segs = Panic p -> p = PSegVar.
+Proof.
+  induction segs as [|g r IH]; intros p; cbn [interp_segs]; [discriminate|].
+  destruct g as [b|vn vl].
+  - destruct (interp_segs e r); try discriminate. intros H; injection H as <-. apply IH; reflexivity.
+  - destruct (lookup_env vl vn e); [|intros H; injection H as <-; reflexivity].
+    destruct (interp_segs e r); try discriminate. intros H; injection H as <-. apply IH; reflexivity.
+Qed.
+
+Lemma interp_segs_rsat (D : psite -> Prop) e segs : ~ D PSegVar -> rsat D (fun _ => True) (interp_segs e segs).
+Proof.
+  intros HD. destruct (interp_segs e segs) eqn:E; cbn; auto.
+  apply interp_segs_only_segvar in E. subst. exact HD.
+Qed.
+
+Lemma assign_path_panic nv : forall path v p,
+  assign_path v path nv = Panic p -> path = [] /\ p = PIdxAssignEnd.
+Proof.
+  induction path as [|i rest IH]; intros v p; cbn [assign_path].
+  - intros H; injection H as <-. auto.
+  - destruct v; try discriminate.
+    destruct (len_z vs <=? i); [discriminate|].
+    destruct rest as [|j rest']; [discriminate|].
+    destruct (nth_value vs (Z.to_nat i)) as [sub|]; [|discriminate].
+    destruct (assign_path sub (j :: rest') nv) eqn:E; cbn; try discriminate.
+    intros H; injection H as <-. apply IH in E. destruct E as [E _]. discriminate E.
+Qed.
+
+Lemma assign_path_rsat (D : psite -> Prop) nv path v :
+  ~ D PIdxAssignEnd \/ path <> [] -> rsat D (fun _ => True) (assign_path v path nv).
+Proof.
+  intros HD. destruct (assign_path v path nv) eqn:E; cbn; auto.
+  apply assign_path_panic in E. destruct E as [-> ->]. destruct HD as [HD|HD]; [exact HD|congruence].
+Qed.
+
 (* ---------- method-name facts ---------- *)
 Lemma mut_builtin_dead f :
   mem_name f array_mut_methods = false -> mem_name f array_methods = true ->
@@ -143,15 +178,15 @@ Ltac leafA :=
   first [ exact I | apply sat_ErrM | apply sat_UnsuppM | apply sat_OkM; exact I
         | apply sat_PanicM; notA | apply Hev | apply Heb | apply Hel | apply Hex ].
 
-Lemma evals_f_A : forall es s, npA (evals_f ev es s).
+Lemma evals_f_A : forall es s, npA (evals_with ev es s).
 Proof.
-  induction es as [|e r IH]; intros s; cbn [evals_f]; [leafA|].
+  induction es as [|e r IH]; intros s; cbn [evals_with]; [leafA|].
   bindA as [v s1]; [apply Hev|]. bindA as [vs s2]; [apply IH|]. leafA.
 Qed.
 
-Lemma eval_indices_f_A : forall es s, npA (eval_indices_f ev es s).
+Lemma eval_indices_f_A : forall es s, npA (indices_with ev es s).
 Proof.
-  induction es as [|e r IH]; intros s; cbn [eval_indices_f]; [leafA|].
+  induction es as [|e r IH]; intros s; cbn [indices_with]; [leafA|].
   bindA as [v s1]; [apply Hev|].
   bindA; [apply sat_lift, nopanic_rsat, index_value_nopanic|].
   bindA as [is s2]; [apply IH|]. leafA.
@@ -166,21 +201,13 @@ Proof.
   bindA as [root' r]; [apply sat_lift, nopanic_rsat, mutate_path_nopanic|]. destruct (assign_env vl vn root' (env s)); leafA.
 Qed.
 
-Lemma mutate_f_A o op s : npA (mutate_f ev o op s).
+Lemma mutate_f_A o op s : npA (mutate_with ev o op s).
 Proof.
-  destruct o; cbn [mutate_f]; try leafA.
+  destruct o; cbn [mutate_with]; try leafA.
   - destruct (lookup_env l n (env s)); [apply tail_mutate_A|leafA].
   - destruct (flatten_target (EIdx o1 o2) []) as [[[vn vl] idx]|]; [|leafA].
     bindA as [path s1]; [apply eval_indices_f_A|].
     destruct (lookup_env vl vn (env s1)); [apply tail_mutate_A|leafA].
-Qed.
-
-Lemma interp_go_A s : forall segs, npA (interp_go s segs).
-Proof.
-  induction segs as [|g r IH]; cbn [interp_go]; [leafA|].
-  destruct g as [b|vn vl].
-  - bindA; [apply IH|]. leafA.
-  - destruct (lookup_env vl vn (env s)); [|leafA]. bindA; [apply IH|]. leafA.
 Qed.
 
 Lemma string_call_A str f args s1 : npA (string_call ev str f args s1).
@@ -243,7 +270,7 @@ Qed.
 Lemma eval_body_A e s : npA (eval_body eps ev eb e s).
 Proof.
   destruct e; cbn [eval_body]; try leafA.
-  - bindA; [apply interp_go_A|]. leafA.
+  - bindA; [apply sat_lift, interp_segs_rsat; notA|]. leafA.
   - destruct (lookup_env l n (env s)); leafA.
   - destruct op.
     all: try (bindA as [lv s1]; [apply Hev|]; bindA as [rv s2]; [apply Hev|];
@@ -275,9 +302,8 @@ Proof.
     destruct (flatten_target target []) as [[[vn vl] idx]|]; [|leafA].
     bindA as [path s2]; [apply eval_indices_f_A|].
     destruct (lookup_env vl vn (env s2)) as [root|]; [|leafA].
-    destruct (assign_path root path v) as [root'| | | |] eqn:Ea; unfold lift; cbn [bindM]; try exact I.
-    + destruct (assign_env vl vn root' (env s2)); cbn; leafA.
-    + cbn. unfold sat, rsat. cbn. notA_site.
+    bindA as root'; [apply sat_lift, assign_path_rsat; left; notA|].
+    destruct (assign_env vl vn root' (env s2)); leafA.
   - bindA as [cv s1]; [apply Hev|].
     bindA; [apply sat_lift, nopanic_rsat, truthy_nopanic|].
     destruct a; [apply Heb|]. destruct f; leafA.
@@ -285,4 +311,420 @@ Proof.
   - bindA as [v s1]; [apply Hev|]. leafA.
 Qed.
 
+Lemma loop_body_A c body s : npA (loop_body ev el eb c body s).
+Proof.
+  unfold loop_body. bindA as [cv s1]; [apply Hev|].
+  bindA as b; [apply sat_lift, nopanic_rsat, truthy_nopanic|].
+  destruct (negb b); [leafA|]. bindA as [fl s2]; [apply Heb|]. destruct fl; leafA.
+Qed.
+
+Lemma stmts_with_A : forall ts s, npA (stmts_with P ex ts s).
+Proof.
+  induction ts as [|t r IH]; intros s; cbn [stmts_with]; [leafA|].
+  destruct (in_plan_stmt P (stmt_sid t)); [apply IH|].
+  bindA as [fl s']; [apply Hex|]. destruct fl; try leafA. apply IH.
+Qed.
+
+Lemma block_body_A b s : npA (block_body P ex b s).
+Proof.
+  unfold block_body. bindA as s1; [|apply stmts_with_A].
+  apply sat_lift, nopanic_rsat, hoist_nopanic. cbn. discriminate.
+Qed.
+
 End PartA.
+
+Lemma deadA_all P eps : forall n,
+  (forall e s, npA (eval P eps n e s)) /\ (forall t s, npA (exec P eps n t s)) /\
+  (forall c b s, npA (exec_loop P eps n c b s)) /\ (forall b s, npA (exec_block P eps n b s)).
+Proof.
+  induction n as [|n (IHe & IHx & IHl & IHb)].
+  - repeat split; intros; exact I.
+  - refine (conj _ (conj _ (conj _ _))); intros.
+    + rewrite eval_S. apply eval_body_A; assumption.
+    + rewrite exec_S. apply exec_body_A; assumption.
+    + rewrite exec_loop_S. apply loop_body_A; assumption.
+    + rewrite exec_block_S. apply block_body_A; assumption.
+Qed.
+
+Definition ending_of (r : list value * ending) : ending := snd r.
+
+Theorem run_impl_deadA plan eps fuel prog s :
+  ending_of (run_impl plan eps fuel prog) = Panicked s -> ~ DeadA s.
+Proof.
+  unfold run_impl, ending_of.
+  pose proof (proj2 (proj2 (proj2 (deadA_all plan eps fuel))) prog init_st) as H.
+  unfold sat in H. destruct (exec_block plan eps fuel prog init_st) as [o r].
+  cbn [snd] in *. destruct r; try discriminate. intros E; injection E as <-. exact H.
+Qed.
+
+(* ====================================================================================== *)
+(* Part B: structural sites, dead for programs that pass WfStatic.wf_static               *)
+(* ====================================================================================== *)
+Definition DeadB (p : psite) : Prop :=
+  p = PArgCount \/ p = PBuiltinArity \/ p = PArgIndex \/ p = PBreakEscapes \/
+  p = PIdxAssignEnd \/ p = PParamRange.
+
+Ltac notB := let H := fresh in intros H; unfold DeadB in H; intuition discriminate.
+Ltac andb_split :=
+  repeat match goal with H : _ && _ = true |- _ => apply andb_prop in H; destruct H end.
+
+Lemma opt_nat_eqb_true a n : opt_nat_eqb a n = true -> a = Some n.
+Proof. destruct a as [k|]; cbn; [|discriminate]. intros H. apply Nat.eqb_eq in H. congruence. Qed.
+
+Lemma need_true f m k n : need f m k n = true -> bytes_eqb f m = true -> (k <= n)%nat.
+Proof. unfold need. intros H E. rewrite E in H. cbn in H. apply Nat.leb_le. exact H. Qed.
+
+Lemma flatten_len : forall t acc n l idxs,
+  flatten_target t acc = Some (n, l, idxs) -> (length acc <= length idxs)%nat.
+Proof.
+  induction t; intros acc n0 l0 idxs; cbn [flatten_target]; try discriminate.
+  - intros H; injection H as _ _ <-. lia.
+  - intros H. apply IHt1 in H. cbn in H. lia.
+Qed.
+
+Section PartB.
+Variable tbl : list (Z * nat).
+
+Lemma flatten_wf : forall t acc n l idxs,
+  wf_expr tbl t = true -> forallb (wf_expr tbl) acc = true ->
+  flatten_target t acc = Some (n, l, idxs) -> forallb (wf_expr tbl) idxs = true.
+Proof.
+  induction t; intros acc n0 l0 idxs Hw Ha; cbn [flatten_target]; try discriminate.
+  - intros H; injection H as _ _ <-. exact Ha.
+  - cbn [wf_expr] in Hw. andb_split. intros H. eapply IHt1; [assumption| |exact H].
+    cbn [forallb]. rewrite Ha. match goal with H : wf_expr tbl t2 = true |- _ => rewrite H end. reflexivity.
+Qed.
+
+Definition fd_ok (fd : fdef) : Prop :=
+  exists i, f_id fd = Some i /\ assoc i tbl = Some (length (f_params fd))
+            /\ Z.of_nat (length (f_params fd)) <= f_llen fd
+            /\ wf_block tbl false (f_body fd) = true.
+
+(* every function registered in any runtime function scope is a checked definition *)
+Definition inv (s : st) : Prop := Forall (Forall fd_ok) (fns s).
+
+Definition Qe (r : value * st) : Prop := inv (snd r).
+Definition Qx (il : bool) (r : flow * st) : Prop :=
+  inv (snd r) /\ (il = false -> fst r <> FBreak /\ fst r <> FNext).
+
+Lemma inv_push sl s : inv s -> inv (push_scope sl s).
+Proof. unfold inv. cbn. intros H. constructor; [constructor|exact H]. Qed.
+Lemma inv_pop s : inv s -> inv (pop_scope s).
+Proof. unfold inv, pop_scope. cbn. destruct (fns s); cbn; auto. intros H. inversion H; assumption. Qed.
+Lemma inv_with_env e s : inv s -> inv (with_env e s).
+Proof. exact (fun H => H). Qed.
+
+Lemma Qx_weaken il r : Qx false r -> Qx il r.
+Proof. intros [H1 H2]. split; [exact H1|]. intros _. apply H2. reflexivity. Qed.
+
+Lemma hoist_inv P : forall b s il, wf_block tbl il b = true -> inv s -> rsat DeadB inv (hoist P b s).
+Proof.
+  induction b as [|t r IH]; intros s il Hw Hi; cbn [hoist]; [exact Hi|].
+  unfold wf_block in Hw. cbn [forallb] in Hw. andb_split.
+  destruct t; try (eapply IH; eassumption).
+  destruct (in_plan_fn P fid); [eapply IH; eassumption|].
+  destruct (fns s) as [|sc rest] eqn:E; [cbn; notB|].
+  eapply IH; [eassumption|]. unfold inv in *. cbn [fns]. rewrite E in Hi.
+  inversion Hi as [|? ? Hsc Hrest]; subst. constructor; [|exact Hrest]. constructor; [|exact Hsc].
+  match goal with H : wf_stmt _ _ (SFun _ _ _ _ _ _ _) = true |- _ => cbn [wf_stmt] in H end.
+  andb_split. destruct fid as [i|]; [|discriminate].
+  exists i. cbn. refine (conj eq_refl (conj _ (conj _ _))).
+  - apply opt_nat_eqb_true. assumption.
+  - apply Z.leb_le. assumption.
+  - assumption.
+Qed.
+
+Lemma find_fn_scope_ok target n : forall sc fd,
+  Forall fd_ok sc -> find_fn_scope target n sc = Some fd -> fd_ok fd /\ fdef_matches target n fd = true.
+Proof.
+  induction sc as [|f r IH]; intros fd Hs; cbn [find_fn_scope]; [discriminate|].
+  inversion Hs; subst. destruct (fdef_matches target n f) eqn:E.
+  - intros H; injection H as <-. auto.
+  - apply IH. assumption.
+Qed.
+
+Lemma lookup_fn_ok target n : forall fs fd,
+  Forall (Forall fd_ok) fs -> lookup_fn target n fs = Some fd -> fd_ok fd /\ fdef_matches target n fd = true.
+Proof.
+  induction fs as [|sc r IH]; intros fd Hs; cbn [lookup_fn]; [discriminate|].
+  inversion Hs; subst. destruct (find_fn_scope target n sc) as [f|] eqn:E.
+  - intros H; injection H as <-. eapply find_fn_scope_ok; eassumption.
+  - apply IH. assumption.
+Qed.
+
+Variable P : plan.
+Variable eps : f64.
+Variable ev : expr -> st -> M (value * st).
+Variable ex : stmt -> st -> M (flow * st).
+Variable el : expr -> list stmt -> st -> M (flow * st).
+Variable eb : list stmt -> st -> M (flow * st).
+Hypothesis Hev : forall e s, wf_expr tbl e = true -> inv s -> sat DeadB Qe (ev e s).
+Hypothesis Hex : forall t s il, wf_stmt tbl il t = true -> inv s -> sat DeadB (Qx il) (ex t s).
+Hypothesis Hel : forall c b s, wf_expr tbl c = true -> wf_block tbl true b = true -> inv s ->
+                               sat DeadB (Qx false) (el c b s).
+Hypothesis Heb : forall b s il, wf_block tbl il b = true -> inv s -> sat DeadB (Qx il) (eb b s).
+
+Tactic Notation "bindB" "as" simple_intropattern(pat) := eapply sat_bind; [ | intros pat ].
+Ltac leafB :=
+  first [ exact I | apply sat_ErrM | apply sat_UnsuppM | apply sat_PanicM; notB ].
+Ltac evB := apply Hev; assumption.
+
+Lemma evals_with_B : forall es s, forallb (wf_expr tbl) es = true -> inv s ->
+  sat DeadB (fun r => inv (snd r) /\ length (fst r) = length es) (evals_with ev es s).
+Proof.
+  induction es as [|e r IH]; intros s Hw Hi; cbn [evals_with].
+  - apply sat_OkM. cbn. auto.
+  - cbn [forallb] in Hw. andb_split.
+    bindB as [v s1] Hq; [evB|]. unfold Qe in Hq; cbn [snd] in Hq.
+    bindB as [vs s2] [Hq2 Hl]; [apply IH; assumption|]. cbn [fst snd] in *.
+    apply sat_OkM. cbn. auto.
+Qed.
+
+Lemma indices_with_B : forall es s, forallb (wf_expr tbl) es = true -> inv s ->
+  sat DeadB (fun r => inv (snd r) /\ length (fst r) = length es) (indices_with ev es s).
+Proof.
+  induction es as [|e r IH]; intros s Hw Hi; cbn [indices_with].
+  - apply sat_OkM. cbn. auto.
+  - cbn [forallb] in Hw. andb_split.
+    bindB as [v s1] Hq; [evB|]. unfold Qe in Hq; cbn [snd] in Hq.
+    bindB as i _; [apply sat_lift, nopanic_rsat, index_value_nopanic|].
+    bindB as [is s2] [Hq2 Hl]; [apply IH; assumption|]. cbn [fst snd] in *.
+    apply sat_OkM. cbn. auto.
+Qed.
+
+Lemma tail_mutate_B vl vn s root path op : inv s ->
+  sat DeadB Qe (bindM (lift (mutate_path root path op))
+        (fun '(root', r) => match assign_env vl vn root' (env s) with
+                            | Some e' => OkM (r, with_env e' s)
+                            | None => PanicM PMutVarMissing end)).
+Proof.
+  intros Hi. bindB as [root' r] _; [apply sat_lift, nopanic_rsat, mutate_path_nopanic|].
+  destruct (assign_env vl vn root' (env s)); [apply sat_OkM; exact Hi|leafB].
+Qed.
+
+Lemma mutate_with_B o op s : wf_expr tbl o = true -> inv s -> sat DeadB Qe (mutate_with ev o op s).
+Proof.
+  intros Hw Hi. destruct o; cbn [mutate_with]; try leafB.
+  - destruct (lookup_env l n (env s)); [apply tail_mutate_B; assumption|leafB].
+  - destruct (flatten_target (EIdx o1 o2) []) as [[[vn vl] idx]|] eqn:Ef; [|leafB].
+    bindB as [path s1] [Hq _]; [apply indices_with_B; [|assumption]|].
+    + eapply flatten_wf; [exact Hw| |exact Ef]. reflexivity.
+    + cbn [snd] in Hq. destruct (lookup_env vl vn (env s1)); [apply tail_mutate_B; assumption|leafB].
+Qed.
+
+Lemma string_call_B str f args s1 :
+  forallb (wf_expr tbl) args = true -> member_args_ok f (length args) = true -> inv s1 ->
+  sat DeadB Qe (string_call ev str f args s1).
+Proof.
+  intros Hw Hm Hi. unfold member_args_ok in Hm. andb_split. unfold string_call.
+  destruct (mem_name f string_methods) eqn:E0; cbn [negb]; [|leafB].
+  destruct (bytes_eqb f n_len) eqn:E1; [apply sat_OkM; exact Hi|].
+  destruct (bytes_eqb f n_slice) eqn:E2.
+  { match goal with H : need f n_slice _ _ = true |- _ => pose proof (need_true _ _ _ _ H E2) as Hl end.
+    destruct args as [|a0 [|a1 rest]]; cbn [length] in Hl; try lia.
+    cbn [forallb] in Hw. andb_split.
+    bindB as [v0 s2] Hq; [evB|]. unfold Qe in Hq; cbn [snd] in Hq.
+    bindB as [v1 s3] Hq3; [evB|]. unfold Qe in Hq3; cbn [snd] in Hq3.
+    destruct v0; try leafB; destruct v1; try leafB. apply sat_OkM. exact Hq3. }
+  destruct (bytes_eqb f n_to_uppercase) eqn:E3.
+  { destruct (is_ascii str); [apply sat_OkM; exact Hi|leafB]. }
+  destruct (bytes_eqb f n_to_lowercase) eqn:E4.
+  { destruct (is_ascii str); [apply sat_OkM; exact Hi|leafB]. }
+  destruct (bytes_eqb f n_trim) eqn:E5; [apply sat_OkM; exact Hi|].
+  destruct (bytes_eqb f n_to_number) eqn:E6; [leafB|].
+  destruct (bytes_eqb f n_find) eqn:E7.
+  { match goal with H : need f n_find _ _ = true |- _ => pose proof (need_true _ _ _ _ H E7) as Hl end.
+    destruct args as [|a0 rest]; cbn [length] in Hl; try lia.
+    cbn [forallb] in Hw. andb_split.
+    bindB as [v0 s2] Hq; [evB|]. unfold Qe in Hq; cbn [snd] in Hq.
+    destruct v0; try leafB. destruct (find str s); try leafB; apply sat_OkM; exact Hq. }
+  destruct (bytes_eqb f n_replace) eqn:E8.
+  { match goal with H : need f n_replace _ _ = true |- _ => pose proof (need_true _ _ _ _ H E8) as Hl end.
+    destruct args as [|a0 [|a1 rest]]; cbn [length] in Hl; try lia.
+    cbn [forallb] in Hw. andb_split.
+    bindB as [v0 s2] Hq; [evB|]. unfold Qe in Hq; cbn [snd] in Hq.
+    bindB as [v1 s3] Hq3; [evB|]. unfold Qe in Hq3; cbn [snd] in Hq3.
+    destruct v0; try leafB; destruct v1; try leafB.
+    destruct (replace str s s0); try leafB. apply sat_OkM. exact Hq3. }
+  pose proof (string_last_is_split f E0 E1 E2 E3 E4 E5 E6 E7 E8) as E9.
+  match goal with H : need f n_split _ _ = true |- _ => pose proof (need_true _ _ _ _ H E9) as Hl end.
+  destruct args as [|a0 rest]; cbn [length] in Hl; try lia.
+  cbn [forallb] in Hw. andb_split.
+  bindB as [v0 s2] Hq; [evB|]. unfold Qe in Hq; cbn [snd] in Hq.
+  destruct v0; try leafB. apply sat_OkM. exact Hq.
+Qed.
+
+Lemma array_call_B items f args s1 :
+  forallb (wf_expr tbl) args = true -> member_args_ok f (length args) = true -> inv s1 ->
+  sat DeadB Qe (array_call ev items f args s1).
+Proof.
+  intros Hw Hm Hi. unfold member_args_ok in Hm. andb_split. unfold array_call.
+  destruct (mem_name f array_methods) eqn:E0; cbn [negb]; [|leafB].
+  destruct (bytes_eqb f n_len) eqn:E1; [apply sat_OkM; exact Hi|].
+  destruct (bytes_eqb f n_join) eqn:E2; [|leafB].
+  match goal with H : need f n_join _ _ = true |- _ => pose proof (need_true _ _ _ _ H E2) as Hl end.
+  destruct args as [|a0 rest]; cbn [length] in Hl; try lia.
+  cbn [forallb] in Hw. andb_split.
+  bindB as [v0 s2] Hq; [evB|]. unfold Qe in Hq; cbn [snd] in Hq.
+  destruct v0; try leafB. apply sat_OkM. exact Hq.
+Qed.
+
+Lemma member_call_B o f args s :
+  wf_expr tbl o = true -> forallb (wf_expr tbl) args = true ->
+  member_args_ok f (length args) = true -> inv s ->
+  sat DeadB Qe (member_call ev o f args s).
+Proof.
+  intros Ho Hw Hm Hi. unfold member_call.
+  destruct (mem_name f array_mut_methods) eqn:Em.
+  - destruct (bytes_eqb f n_push) eqn:E1.
+    + unfold member_args_ok in Hm. andb_split.
+      match goal with H : need f n_push _ _ = true |- _ => pose proof (need_true _ _ _ _ H E1) as Hl end.
+      destruct args as [|a0 rest]; cbn [length] in Hl; try lia.
+      cbn [forallb] in Hw. andb_split.
+      bindB as [v s1] Hq; [evB|]. unfold Qe in Hq; cbn [snd] in Hq.
+      apply mutate_with_B; assumption.
+    + destruct (bytes_eqb f n_pop); apply mutate_with_B; assumption.
+  - destruct (mem_name f proc_mut_names); [leafB|].
+    bindB as [recv s1] Hq; [evB|]. unfold Qe in Hq; cbn [snd] in Hq.
+    destruct recv; try leafB.
+    + destruct (mem_name f number_methods); [apply sat_OkM; exact Hq|leafB].
+    + apply string_call_B; assumption.
+    + apply array_call_B; assumption.
+Qed.
+
+Lemma builtin_call_B g args s :
+  forallb (wf_expr tbl) args = true -> length args = 1%nat -> inv s ->
+  sat DeadB Qe (builtin_call ev g args s).
+Proof.
+  intros Hw Hl Hi. unfold builtin_call.
+  bindB as [vs s1] [Hq Hlen]; [apply evals_with_B; assumption|]. cbn [fst snd] in *.
+  rewrite Hl in Hlen. destruct vs as [|v [|? ?]]; cbn [length] in Hlen; try lia.
+  destruct g; try leafB; try (apply sat_OkM; exact Hq). exact Hq.
+Qed.
+
+Lemma user_call_B fname args i s :
+  forallb (wf_expr tbl) args = true -> assoc i tbl = Some (length args) -> inv s ->
+  sat DeadB Qe (user_call ev eb fname args (Some i) s).
+Proof.
+  intros Hw Ha Hi. unfold user_call.
+  destruct (lookup_fn (Some i) fname (fns s)) as [fd|] eqn:El; [|leafB].
+  destruct (lookup_fn_ok _ _ _ _ Hi El) as [(j & Hid & Has & Hll & Hbody) Hmatch].
+  unfold fdef_matches in Hmatch. rewrite Hid in Hmatch. cbn [opt_eqb] in Hmatch.
+  apply Z.eqb_eq in Hmatch. subst j.
+  bindB as [vs s1] [Hq Hlen]; [apply evals_with_B; assumption|]. cbn [fst snd] in *.
+  assert (Hn : length vs = length (f_params fd)) by congruence.
+  rewrite Hn, Nat.eqb_refl. cbn [negb]. rewrite Hid.
+  destruct (f_llen fd <? Z.of_nat (length (f_params fd))) eqn:Elt; [apply Z.ltb_lt in Elt; lia|].
+  lazy zeta. bindB as [fl s3] [Hq3 Hfl].
+  - apply Heb; [exact Hbody|]. apply inv_push. exact Hq.
+  - cbn [fst snd] in *. specialize (Hfl eq_refl). destruct Hfl as [Hb Hn'].
+    destruct fl; try congruence; apply sat_OkM; apply inv_pop; exact Hq3.
+Qed.
+
+Lemma eval_body_B e s : wf_expr tbl e = true -> inv s -> sat DeadB Qe (eval_body eps ev eb e s).
+Proof.
+  intros Hw Hi. destruct e; cbn [eval_body]; try (apply sat_OkM; exact Hi); try leafB.
+  - bindB as b _; [apply sat_lift, interp_segs_rsat; notB|]. apply sat_OkM. exact Hi.
+  - destruct (lookup_env l n (env s)); [apply sat_OkM; exact Hi|leafB].
+  - cbn [wf_expr] in Hw. andb_split. destruct op.
+    all: try (bindB as [lv s1] Hq; [evB|]; unfold Qe in Hq; cbn [snd] in Hq;
+              bindB as [rv s2] Hq2; [evB|]; unfold Qe in Hq2; cbn [snd] in Hq2;
+              bindB as v _; [apply sat_lift, nopanic_rsat, binop_values_nopanic; discriminate|];
+              apply sat_OkM; exact Hq2).
+    + bindB as [lv s1] Hq; [evB|]. unfold Qe in Hq; cbn [snd] in Hq.
+      destruct lv as [| |[|]| |]; try (apply sat_OkM; exact Hq);
+      (bindB as [rv s2] Hq2; [evB|]; unfold Qe in Hq2; cbn [snd] in Hq2;
+       destruct rv; try leafB; apply sat_OkM; exact Hq2).
+    + bindB as [lv s1] Hq; [evB|]. unfold Qe in Hq; cbn [snd] in Hq.
+      destruct lv as [| |[|]| |]; try (apply sat_OkM; exact Hq);
+      (bindB as [rv s2] Hq2; [evB|]; unfold Qe in Hq2; cbn [snd] in Hq2;
+       destruct rv; try leafB; apply sat_OkM; exact Hq2).
+  - cbn [wf_expr] in Hw. bindB as [v s1] Hq; [evB|]. unfold Qe in Hq; cbn [snd] in Hq.
+    destruct op, v; try leafB; apply sat_OkM; exact Hq.
+  - cbn [wf_expr] in Hw. bindB as [vs s1] [Hq _]; [apply evals_with_B; assumption|].
+    apply sat_OkM. exact Hq.
+  - cbn [wf_expr] in Hw. andb_split.
+    bindB as [av s1] Hq; [evB|]. unfold Qe in Hq; cbn [snd] in Hq.
+    bindB as [iv s2] Hq2; [evB|]. unfold Qe in Hq2; cbn [snd] in Hq2.
+    destruct av; try leafB. destruct iv; try leafB.
+    destruct (negb (is_finite x) || negb (is_int x)); [leafB|]. lazy zeta.
+    destruct ((to_isize x <? 0) || (len_z vs <=? to_isize x)); [leafB|].
+    destruct (nth_value vs (Z.to_nat (to_isize x))); [apply sat_OkM; exact Hq2|leafB].
+  - destruct e; try leafB.
+    + cbn [wf_expr] in Hw. andb_split. destruct (global_builtin n) eqn:Eg.
+      * apply builtin_call_B; try assumption. apply Nat.eqb_eq. assumption.
+      * destruct target as [i|]; [|discriminate].
+        apply user_call_B; try assumption. apply opt_nat_eqb_true. assumption.
+    + cbn [wf_expr] in Hw. andb_split. apply member_call_B; assumption.
+Qed.
+
+Lemma QxN il s : inv s -> Qx il (FNormal, s).
+Proof. intros H. split; [exact H|]. intros _. split; discriminate. Qed.
+
+Lemma exec_body_B t s il : wf_stmt tbl il t = true -> inv s -> sat DeadB (Qx il) (exec_body ev el eb t s).
+Proof.
+  intros Hw Hi. destruct t; cbn [exec_body]; cbn [wf_stmt] in Hw.
+  - apply sat_OkM. apply QxN. exact Hi.
+  - bindB as [v s1] Hq; [evB|]. apply sat_OkM. apply QxN. exact Hq.
+  - bindB as [v s1] Hq; [evB|]. unfold Qe in Hq; cbn [snd] in Hq.
+    destruct (assign_env l n v (env s1)); [apply sat_OkM; apply QxN; exact Hq|leafB].
+  - andb_split. bindB as [v s1] Hq; [evB|]. unfold Qe in Hq; cbn [snd] in Hq.
+    destruct (flatten_target target []) as [[[vn vl] idx]|] eqn:Ef; [|leafB].
+    bindB as [path s2] [Hq2 Hlen]; [apply indices_with_B; [|assumption]|].
+    + eapply flatten_wf; [eassumption| |exact Ef]. reflexivity.
+    + cbn [fst snd] in *. destruct (lookup_env vl vn (env s2)) as [root|]; [|leafB].
+      bindB as root' _.
+      * apply sat_lift, assign_path_rsat. right. destruct target; try discriminate.
+        cbn [flatten_target] in Ef. apply flatten_len in Ef. cbn [length] in Ef.
+        destruct path; [cbn in Hlen; lia|discriminate].
+      * destruct (assign_env vl vn root' (env s2)); [apply sat_OkM; apply QxN; exact Hq2|leafB].
+  - andb_split. bindB as [cv s1] Hq; [evB|]. unfold Qe in Hq; cbn [snd] in Hq.
+    bindB as b _; [apply sat_lift, nopanic_rsat, truthy_nopanic|].
+    destruct b; [apply Heb; assumption|].
+    destruct f; [apply Heb; assumption|apply sat_OkM; apply QxN; exact Hq].
+  - andb_split. eapply sat_weaken; [apply Qx_weaken|]. apply Hel; assumption.
+  - apply Heb; assumption.
+  - destruct e.
+    + bindB as [v s1] Hq; [evB|]. apply sat_OkM. split; [exact Hq|]. intros _; split; discriminate.
+    + apply sat_OkM. split; [exact Hi|]. intros _; split; discriminate.
+  - apply sat_OkM. split; [exact Hi|]. intros E. congruence.
+  - apply sat_OkM. split; [exact Hi|]. intros E. congruence.
+  - bindB as [v s1] Hq; [evB|]. apply sat_OkM. apply QxN. exact Hq.
+Qed.
+
+Lemma loop_body_B c body s :
+  wf_expr tbl c = true -> wf_block tbl true body = true -> inv s ->
+  sat DeadB (Qx false) (loop_body ev el eb c body s).
+Proof.
+  intros Hc Hb Hi. unfold loop_body.
+  bindB as [cv s1] Hq; [evB|]. unfold Qe in Hq; cbn [snd] in Hq.
+  bindB as b _; [apply sat_lift, nopanic_rsat, truthy_nopanic|].
+  destruct (negb b); [apply sat_OkM; apply QxN; exact Hq|].
+  bindB as [fl s2] [Hq2 _]; [apply (Heb body s1 true); assumption|]. cbn [snd] in Hq2.
+  destruct fl.
+  - apply Hel; assumption.
+  - apply sat_OkM. split; [exact Hq2|]. intros _; split; discriminate.
+  - apply sat_OkM. apply QxN. exact Hq2.
+  - apply Hel; assumption.
+Qed.
+
+Lemma stmts_with_B il : forall ts s, wf_block tbl il ts = true -> inv s ->
+  sat DeadB (Qx il) (stmts_with P ex ts s).
+Proof.
+  induction ts as [|t r IH]; intros s Hw Hi; cbn [stmts_with].
+  - apply sat_OkM. apply QxN. apply inv_pop. exact Hi.
+  - unfold wf_block in Hw. cbn [forallb] in Hw. andb_split.
+    destruct (in_plan_stmt P (stmt_sid t)); [apply IH; assumption|].
+    bindB as [fl s'] [Hq Hfl]; [apply Hex; assumption|]. cbn [fst snd] in *.
+    destruct fl; try (apply IH; assumption);
+      (apply sat_OkM; split; [apply inv_pop; exact Hq|exact Hfl]).
+Qed.
+
+Lemma block_body_B b s il : wf_block tbl il b = true -> inv s -> sat DeadB (Qx il) (block_body P ex b s).
+Proof.
+  intros Hw Hi. unfold block_body.
+  bindB as s1 Hq; [apply sat_lift; eapply hoist_inv; [exact Hw|apply inv_push; exact Hi]|].
+  apply stmts_with_B; assumption.
+Qed.
+
+End PartB.
